@@ -28,6 +28,9 @@ def structures(ctx):
     no_oxt = lambda ls: C.drop(ls, lambda ln: ln[12:16].strip() == "OXT")  # noqa
     out.append(("A,B,C-no-TER", C.join(no_oxt(a) + no_oxt(b) + C.rename_chain(C.chain_lines("1HPX", "A", 60, 10), "A", "C"))))
     out.append(("A+B+blank-lig", C.join(a + [C.TER] + b + [C.TER] + C.rename_chain(lig, "B", " "))))
+    # a blank chain identifier in a file that carries an identification code / segment identifier in columns 73-76
+    segid = lambda ls: [(ln.ljust(80)[:72] + "1HPX" + ln.ljust(80)[76:]) if C.is_atom(ln) else ln for ln in ls]  # noqa
+    out.append(("blank+B+segid", C.join(segid(C.rename_chain(a, "A", " ")) + [C.TER] + segid(b) + [C.TER])))
     # chain identifiers that differ only in case (large assemblies run out of upper-case letters), digits
     out.append(("chains-A+a", C.join(a + [C.TER] + C.rename_chain(b, "B", "a") + [C.TER])))
     if ctx.thorough():
